@@ -1521,9 +1521,7 @@ impl Linearizer {
         rhs: Exp,
         name: String,
     ) -> Result<(), LinearizationError> {
-        let exp = Exp::BinOp(BinOp::Sub, lhs.to_box(), rhs.to_box())
-            .flatten()
-            .simplify();
+        let exp = normalized(Exp::BinOp(BinOp::Sub, lhs.to_box(), rhs.to_box()));
         let requirement = match comparison {
             Comparison::LessOrEqual | Comparison::Less => ValueRequirement::PreferLower,
             Comparison::GreaterOrEqual | Comparison::Greater => ValueRequirement::PreferHigher,
@@ -1661,7 +1659,7 @@ impl Linearizer {
             )?;
         }
         let objective_type = objective.objective_type.clone();
-        let objective_exp = objective.rhs.flatten().simplify();
+        let objective_exp = normalized(objective.rhs);
         let objective_requirement = match &objective_type {
             OptimizationType::Min => ValueRequirement::PreferLower,
             OptimizationType::Max => ValueRequirement::PreferHigher,
@@ -1675,8 +1673,8 @@ impl Linearizer {
         while let Some(constraint) = context.pop_constraint() {
             let is_logic_assertion = constraint.is_logic_assertion();
             let (lhs, op, rhs, name) = constraint.into_parts();
-            let lhs = lhs.flatten().simplify();
-            let rhs = rhs.flatten().simplify();
+            let lhs = normalized(lhs);
+            let rhs = normalized(rhs);
             ensure_finite_numbers(&lhs)?;
             ensure_finite_numbers(&rhs)?;
             if is_logic_assertion {
@@ -1762,15 +1760,23 @@ impl Linearizer {
     }
 }
 
+/// The form expressions are lowered in. Constants are folded before products
+/// are distributed, otherwise a coefficient spelled as a sum, such as
+/// `(1 + 1) * x`, would be distributed into `1 * x + 1 * x` and no longer look
+/// like the `2 * x` it is.
+fn normalized(exp: Exp) -> Exp {
+    exp.simplify().flatten().simplify()
+}
+
 fn normalized_for_bounds(constraint: &Constraint) -> Constraint {
-    let lhs = constraint.lhs().clone().flatten().simplify();
+    let lhs = normalized(constraint.lhs().clone());
     if constraint.is_logic_assertion() {
         return Constraint::new_logic_assertion(lhs, constraint.name().to_string());
     }
     Constraint::new(
         lhs,
         constraint.constraint_type(),
-        constraint.rhs().clone().flatten().simplify(),
+        normalized(constraint.rhs().clone()),
         constraint.name().to_string(),
     )
 }
